@@ -34,9 +34,9 @@ REQUIRED_PROBES = {"quick": ["ns.wrapped", "window.exhausted", "threaded.complet
 def phases(tier):
     q = tier == "quick"
     return [
-        {"name": "stepped", "runs": 1200 if q else 150000, "params": {"mode": "stepped", "steps": 300 if q else 1500}},
-        {"name": "threaded", "runs": 500 if q else 80000, "params": {"mode": "threaded"}},
-        {"name": "contention", "runs": 500 if q else 80000, "params": {"mode": "threaded", "contention": True}},
+        {"name": "stepped", "runs": 1200 if q else 60000, "params": {"mode": "stepped", "steps": 300 if q else 1000}},
+        {"name": "threaded", "runs": 500 if q else 30000, "params": {"mode": "threaded"}},
+        {"name": "contention", "runs": 500 if q else 30000, "params": {"mode": "threaded", "contention": True}},
     ]
 
 
